@@ -190,6 +190,14 @@ def s3_presence_through(ctx):
     judged = 0
     for p in ps:
         held = next((v for c, v, _ in p.conds if fmt(c) == 'transaction.asset in self.positions'), None)
+        # (the final state, with stored locations read as the logical fields they project: _valuation.bought is buy_quantity)
+        from ..symex import _lifter
+        lift_ = _lifter(ctx.M.projections(), None)
+        heapL = dict(p.heap)
+        for k_, v_ in list(p.heap.items()):
+            kl_ = T.replace(k_, lift_)
+            if kl_ != k_:
+                heapL[kl_] = T.replace(v_, lift_) if isinstance(v_, tuple) else v_
         obj_ = p.heap.get(loc)
         if held is None and obj_ is None:
             continue
@@ -199,7 +207,7 @@ def s3_presence_through(ctx):
             f_new = dict(obj_[2])
             net_post = T.t_sub(f_new.get('buy_quantity', ZERO), f_new.get('sell_quantity', ZERO))         # the position just opened
         elif held:
-            post = lambda f_: p.heap.get(('attr', loc, f_), ('attr', loc, f_))
+            post = lambda f_: heapL.get(('attr', loc, f_), ('attr', loc, f_))
             net_post = T.t_sub(post('buy_quantity'), post('sell_quantity'))
         else:
             continue
